@@ -6,3 +6,4 @@ git -C /repo diff --stat | tail -1
 cd /verif
 for c in "$@"; do timeout 1500 ./check $c 2>&1 | grep -E "VIOLATION|INFRA|violations=" | cut -c1-400 | head -4; done
 git -C /repo checkout -- .
+./check --build-only
